@@ -245,7 +245,9 @@ class ConnectionPool(object):
             except KeyError:
                 return
             else:
-                yield from release_task
+                # Shield so that cancelling the waiter does not cancel the
+                # release, which would leak the connection as busy.
+                yield from asyncio.shield(release_task)
 
     @asyncio.coroutine
     def session(self, host: str, port: int, use_ssl: bool=False):
